@@ -247,6 +247,9 @@ impl<'a> Judge<'a> {
             }
             if !listed.is_empty() {
                 self.rep.obs("connection_listed_towards_h2_checked", 1);
+                if values_of(&spec.headers, "connection").len() > 1 {
+                    self.rep.obs("connection_listed_towards_h2_checked/several_connection_lines/request", 1);
+                }
             }
         }
 
@@ -561,8 +564,24 @@ impl<'a> Judge<'a> {
             return;
         }
         self.rep.obs(&format!("trailer_cases/{pair}"), 1);
+        if self.spec.cuts.iter().any(|c| matches!(c, Cut::InTrailerRegion(_))) {
+            self.rep.obs("trailer_cases_cut_inside_trailer_region", 1);
+        }
         let is_identity = |n: &str| IDENTITY_FIXED.contains(&n) || n == corr;
+        if !self.spec.front.is_h2() && self.rec.back == Back::H2 && self.spec.cuts.iter().any(|c| matches!(c, Cut::InTrailerRegion(_))) {
+            // One root cause, many random faces (fields lost, names resolved against a stale HPACK
+            // table): judged as a whole so that the signature is stable.
+            let want: Fields = ct.iter().filter(|(n, _)| !is_identity(&lc(n))).cloned().collect();
+            self.rep.obs("split_trailer_section_towards_h2c_checked", 1);
+            if !bt.is_empty() && group(&want) != group(bt) {
+                self.violate("headers/split_trailer_section_corrupts_h2_trailers/request", format!("the trailer section reached sozu in two reads; a correct proxy hands the h2c backend {} (or no trailers), it received {}", fields_json(&want), fields_json(bt)), json!({"cuts": format!("{:?}", self.spec.cuts)}));
+            }
+            return;
+        }
         let attempted: Vec<String> = ct.iter().map(|(n, _)| lc(n)).filter(|n| is_identity(n)).collect();
+        if !attempted.is_empty() && self.spec.cuts.iter().any(|c| matches!(c, Cut::InTrailerRegion(_))) {
+            self.rep.obs("trailer_identity_attempts_cut_inside_trailer_region", 1);
+        }
         for n in &attempted {
             self.rep.obs(&format!("trailer_identity_attempts/{}", if *n == corr { "correlation" } else { n.as_str() }), 1);
         }
@@ -584,6 +603,8 @@ impl<'a> Judge<'a> {
         let (gc, gb) = (group(&c), group(&b));
         if gc == gb {
             self.rep.obs("trailer_fields_compared", c.len() as u64);
+        } else if gb.iter().all(|(n, vals)| gc.get(n).is_some_and(|cv| is_subsequence(vals, cv))) {
+            self.violate(&format!("headers/request_trailer_lost/{pair}"), format!("part of the request trailers was forwarded, part was lost: client sent {}, backend received {}", fields_json(&c), fields_json(&b)), json!({"cuts": format!("{:?}", self.spec.cuts)}));
         } else {
             self.violate(&format!("headers/request_trailer_altered/{pair}"), format!("forwarded request trailers differ: client sent {}, backend received {}", fields_json(&c), fields_json(&b)), Value::Null);
         }
@@ -621,6 +642,9 @@ impl<'a> Judge<'a> {
             }
             if !listed.is_empty() {
                 self.rep.obs("connection_listed_towards_h2_checked", 1);
+                if values_of(&resp.headers, "connection").len() > 1 {
+                    self.rep.obs("connection_listed_towards_h2_checked/several_connection_lines/response", 1);
+                }
             }
         }
 
@@ -734,8 +758,13 @@ impl<'a> Judge<'a> {
         // response trailers
         if !resp.trailers.is_empty() || !obs.trailers.is_empty() {
             self.rep.obs(&format!("response_trailer_cases/{pair}"), 1);
+            if spec.front.is_h2() && resp.cut_in_trailer_region.is_some() {
+                self.rep.obs("split_trailer_section_towards_h2_client_checked", 1);
+            }
             if obs.trailers.is_empty() {
                 self.exempt("response_trailers_not_forwarded", 1);
+            } else if group(&resp.trailers) != group(&obs.trailers) && spec.front.is_h2() && resp.cut_in_trailer_region.is_some() {
+                self.violate("headers/split_trailer_section_corrupts_h2_trailers/response", format!("the backend's trailer section reached sozu in two reads: backend sent trailers {}, the H2 client received {}", fields_json(&resp.trailers), fields_json(&obs.trailers)), Value::Null);
             } else if group(&resp.trailers) != group(&obs.trailers) {
                 self.violate(&format!("headers/response_trailer_altered/{pair}"), format!("backend sent trailers {}, client received {}", fields_json(&resp.trailers), fields_json(&obs.trailers)), Value::Null);
             } else {
